@@ -353,9 +353,14 @@ func (l *Layout) docBlock(doc []string, nl string) string {
 		if l.style >= 4 && l.rng.Intn(4) == 0 {
 			b.WriteString("  ")
 		}
-		if line == "" {
+		switch {
+		case line == "":
 			b.WriteString("#")
-		} else {
+		case line[0] != ' ' && line[0] != '\t' && (l.style == 1 || (l.style >= 4 && l.rng.Intn(3) == 0)):
+			// the text right behind the '#': only ONE blank after '#' is layout, and only if there is one
+			b.WriteString("#" + line)
+			l.note("doc-without-blank")
+		default:
 			b.WriteString("# " + line)
 		}
 		b.WriteString(nl)
